@@ -51,6 +51,8 @@ void check_one(Recorder& rec, const Shape& sh, const std::vector<Gen>& hist, con
     if (maxabs(lib - terms) > tol) {
         rec.violation("C04:translation:" + family, "Hamiltonian matrix (IndexHamiltonian/actRight/HamiltonianPart) differs from the sum of the lattice's terms (max dev " + std::to_string(maxabs(lib - terms)) + ")", repr);
     }
+    // the translation is a function of the lattice: translating again (a second prepare() on the same IndexHamiltonian) gives the same operator
+    { P.HS->prepare(); refed::Mat again = P.symbolic_H(); if (maxabs(again - terms) > tol) rec.violation(maxabs(again - 2.0 * terms) <= tol ? "C04:translation:prepare-twice:doubled" : "C04:translation:prepare-twice", "IndexHamiltonian::prepare() called a second time changes the operator (max dev " + std::to_string(maxabs(again - terms)) + ")", repr); }
     if (all_presets_herm && maxabs(lib - lib.adjoint()) > tol)
         rec.violation("C04:hermiticity:" + family, "preset result is not Hermitian", repr);
     if (su2) {
